@@ -46,19 +46,47 @@ def assign_heads(sh, choice):
     return model.MT(1, model.mk_tokens(n, edge=tok_edges), root)
 
 
+def assign_heads_by_category(sh, choice):
+    """Same head assignment, but expressed through categories for the PTB head-rule preset: below a
+    parent of category S (SQ) the head child is S (SQ) or a token tagged TO (VBZ), every other child is
+    SQ (S) or a token tagged zzz — so exactly one child is listed in the parent's head rule.  Labels carry
+    function/index decorations."""
+    n = len(model.leaves(sh))
+    pos = ['zzz'] * n
+    uid = [10]
+
+    def rec(s, path, cat, is_head, parent_cat):
+        if isinstance(s, int):
+            pos[s - 1] = ({'S': 'TO', 'SQ': 'VBZ'}[parent_cat] if is_head else 'zzz') + ('-X' if s % 2 else '')
+            return s
+        h = choice[path]
+        uid[0] += 1
+        lab = cat + ('-SBJ-%d' % uid[0] if len(path) % 2 else '=%d' % uid[0])     # unique label, same category
+        other = 'SQ' if cat == 'S' else 'S'
+        return (lab, '--', tuple(rec(k, path + (i,), cat if i == h else other, i == h, cat)
+                                 for i, k in enumerate(s)))
+    root = rec(sh, (), 'S', False, None)
+    return model.MT(1, model.mk_tokens(n, pos=pos), root)
+
+
 def head_choices(sh):
     paths = [(p, len(s)) for p, s in model.nodes_of(sh)]
     for combo in itertools.product(*[range(k) for _, k in paths]):
         yield {p: c for (p, _), c in zip(paths, combo)}
 
 
+def span_head_lookup(span_head, nd):
+    return span_head[tuple(model.leaves(nd))]
+
+
 def node_span(x):
     return sorted(l.data['num'] for l in raw_leaves(x))
 
 
-def check_one(mtj, root_attach, order=None):
+def check_one(mtj, root_attach, order=None, rules=None):
+    """rules: None (NeGra heuristic over HD edges) or {'preset': 'ptb', 'choice': [[path, head index], ...]}."""
     mt = model.MT.from_json(mtj)
-    case = {'mt': mtj, 'root_attach': root_attach, 'order': order}
+    case = {'mt': mtj, 'root_attach': root_attach, 'order': order, 'rules': rules}
     out = []
 
     def bad(kind, where, detail, what):
@@ -71,7 +99,10 @@ def check_one(mtj, root_attach, order=None):
             t = transform.root_attach(t)
         base = extract(t, sid=True)        # tree the rest of the pipeline starts from
         base.sid = mt.sid
-        t = transform.negra_mark_heads(t)
+        if rules:
+            t = transform.mark_heads_by_rules(t, mark_heads_preset=rules['preset'])
+        else:
+            t = transform.negra_mark_heads(t)
         t = transform.boyd_split(t)
     except Exception as e:
         bad('exception', 'boyd_split', '%s: %s' % (type(e).__name__, e), 'pipeline raised')
@@ -134,7 +165,29 @@ def check_one(mtj, root_attach, order=None):
         if sp != list(range(sp[0], sp[-1] + 1)):
             bad('still-discontinuous', 'raising', 'node %s covers %r' % (x.data['label'], sp),
                 'a node is still discontinuous after raising')
-    exp = model.MT(mt.sid, base.toks, refs.split_raise(base))
+    if rules:
+        heads = {tuple(p): h for p, h in rules['choice']}
+        by_label = {}
+
+        def index(nd, path):
+            if not isinstance(nd, int):
+                by_label[nd[0]] = heads[path]
+                for i, k in enumerate(model.canon_mt(nd)[2]):
+                    index(k, path + (i,))
+        index(model.canon_mt(mt.root), ())
+        # labels are unique per node only together with the path; use the token span to identify nodes
+        span_head = {}
+
+        def index2(nd, path):
+            if not isinstance(nd, int):
+                span_head[tuple(model.leaves(nd))] = heads[path]
+                for i, k in enumerate(model.canon_mt(nd)[2]):
+                    index2(k, path + (i,))
+        index2(model.canon_mt(mt.root), ())
+        exp_root = refs.split_raise(base, head_index=lambda nd: span_head_lookup(span_head, nd))
+    else:
+        exp_root = refs.split_raise(base)
+    exp = model.MT(mt.sid, base.toks, exp_root)
     d = mt_equal(exp, got, tok_fields=('word', 'pos', 'edge', 'morph', 'lemma'), edges=True, sid=True)
     if d:
         bad('raise-mismatch', 'boyd_split+raising', d, 'result differs from the split-and-raise reference')
@@ -151,7 +204,7 @@ def check_one(mtj, root_attach, order=None):
 
 def check_case(case):
     with quiet():
-        return check_one(case['mt'], case['root_attach'], case.get('order'))[0]
+        return check_one(case['mt'], case['root_attach'], case.get('order'), case.get('rules'))[0]
 
 
 def run_chunk(chunk):
@@ -170,6 +223,17 @@ def run_chunk(chunk):
                     if disc:
                         res.nontrivial += 1
                     res.outcome((model.shape_str(sh), tuple(sorted(choice.items())), ra, len(vs)))
+                    for v in vs:
+                        res.violation(v['kind'], v['where'], v['case'], v['detail'], v['what'])
+            # the same head assignments expressed through categories for the PTB rule preset (small n)
+            if chunk['n'] <= (4 if chunk.get('tier') != 'thorough' else 5) and not k:
+                for choice in head_choices(sh):
+                    rmt = assign_heads_by_category(sh, choice)
+                    rules = {'preset': 'ptb', 'choice': [[list(p), h] for p, h in sorted(choice.items())]}
+                    vs, disc = check_one(rmt.to_json(), False, None, rules)
+                    res.evals += 1
+                    res.nontrivial += 1 if disc else 0
+                    res.outcome((model.shape_str(sh), tuple(sorted(choice.items())), 'ptb', len(vs)))
                     for v in vs:
                         res.violation(v['kind'], v['where'], v['case'], v['detail'], v['what'])
             if model.mt_tree_gap_degree(mt.root) > 0:
